@@ -116,8 +116,12 @@ def extract() -> tuple[dict[str, Any], list[str]]:
 
     try:
         tls = _tree(src, "server/tls_protocol.py")
-        out["recvSizes"] = sorted({a.value for n in ast.walk(tls) if isinstance(n, ast.Call) and isinstance(n.func, ast.Attribute)
-                                   and n.func.attr in ("recv", "bio_read") for a in n.args if isinstance(a, ast.Constant)})
+        # module-level integer constants, so that `recv(TLS_CHUNK_SIZE)` is read as its literal
+        ints = {t.id: st.value.value for st in tls.body if isinstance(st, (ast.Assign, ast.AnnAssign)) and isinstance(getattr(st, "value", None), ast.Constant)
+                and isinstance(st.value.value, int) for t in (st.targets if isinstance(st, ast.Assign) else [st.target]) if isinstance(t, ast.Name)}
+        out["recvSizes"] = sorted({(a.value if isinstance(a, ast.Constant) else ints[a.id]) for n in ast.walk(tls) if isinstance(n, ast.Call)
+                                   and isinstance(n.func, ast.Attribute) and n.func.attr in ("recv", "bio_read") for a in n.args
+                                   if isinstance(a, ast.Constant) or (isinstance(a, ast.Name) and a.id in ints)})
         w = _func(tls, "TLSTransportWrapper", "write")
         out["wrapperUsesSendall"] = bool(w) and any(isinstance(n, ast.Attribute) and n.attr == "sendall" for n in ast.walk(w)) \
             and not any(isinstance(n, ast.Attribute) and n.attr == "send" for n in ast.walk(w))
